@@ -3,6 +3,7 @@ package pluginc07
 import (
 	"fmt"
 	"math/rand"
+	"sort"
 	"strings"
 
 	corev1 "k8s.io/api/core/v1"
@@ -225,6 +226,22 @@ func (g *C10Gen) Next(w *plugin.World, step int) string {
 		}
 		return fmt.Sprintf("resync ? 0 %d", pf)
 	})
+	// the resync pass split into its snapshot and its per-record iterations: other moves happen in between
+	add(0.7, func() string { return "resyncsnap" })
+	if len(w.Snap) > 0 {
+		var ips []uint32
+		for ip := range w.Snap {
+			ips = append(ips, ip)
+		}
+		sort.Slice(ips, func(i, j int) bool { return ips[i] < ips[j] })
+		add(2.0, func() string {
+			pf := 0
+			if noMultiKey(w) {
+				pf = g.pfault(2)
+			}
+			return fmt.Sprintf("resyncrec %d 0 %d", ips[rng.Intn(len(ips))], pf)
+		})
+	}
 	add(1.2, func() string { return g.release(w) })
 	add(0.3, func() string { g.needSync = false; return "restart" })
 	add(0.8, func() string {
